@@ -29,6 +29,7 @@ func c19(c *Ctx) {
 	c19storeUse(c)
 	scriptDispatch(c, "C19.R6")
 	c19wrappers(c)
+	c19synchronous(c)
 }
 
 // c19storeUse (R5): the lock touches its store only through the two scripts. Any other command issued on
